@@ -3,7 +3,7 @@
    at most one run per deletion of its entry; whatever a store or a port holds for a process is
    covered by a cleanup (registered exit hook, or cleanup code some thread still has to run), so in
    every state where all threads are finished a terminated process has nothing left. *)
-From Coq Require Import List NArith Bool Lia.
+From Coq Require Import List Arith NArith Bool Lia.
 From Uf Require Import Process.Local.
 Import ListNotations.
 
@@ -11,8 +11,8 @@ Import ListNotations.
 Lemma nth_set_nth {A} (l : list A) t j x d :
   nth j (set_nth t x l) d = if Nat.eqb j t then (if Nat.ltb t (length l) then x else nth j l d) else nth j l d.
 Proof.
-  revert t j. induction l as [|a l IH]; intros t j; cbn.
-  - destruct (Nat.eqb j t); reflexivity.
+  revert t j. induction l as [|a l IH]; intros t j.
+  - cbn. destruct j, t; cbn; try reflexivity. destruct (Nat.eqb j t); reflexivity.
   - destruct t as [|t]; destruct j as [|j]; cbn; try reflexivity.
     rewrite IH. destruct (Nat.eqb j t); [|reflexivity].
     change (Nat.ltb (S t) (S (length l))) with (Nat.ltb t (length l)). reflexivity.
@@ -36,7 +36,7 @@ Proof.
   intros N. induction l as [|[k2 v] l IH]; cbn; auto.
   destruct (Nat.eqb k2 k) eqn:E; cbn.
   - apply Nat.eqb_eq in E. subst. destruct (Nat.eqb k' k) eqn:E2; [apply Nat.eqb_eq in E2; congruence|exact IH].
-  - rewrite IH. reflexivity.
+  - destruct (Nat.eqb k' k2); [reflexivity|exact IH].
 Qed.
 Lemma alookup_aset_same {A} k (v : A) l : alookup k (aset k v l) = Some v.
 Proof. unfold aset. cbn. rewrite Nat.eqb_refl. reflexivity. Qed.
@@ -48,10 +48,12 @@ Qed.
 
 (* ---------- well-formed continuations ---------- *)
 Definition body_ok (b : body) : Prop := match b with BStoreOld _ _ => False | _ => True end.
+(* BLzDone only ever follows the initialiser inside lazy.Do; it is not the first body of a critical section *)
+Definition entry_ok (b : body) : Prop := match b with BLzDone _ _ => False | _ => True end.
 
 Inductive wf : list instr -> Prop :=
 | wf_nil : wf []
-| wf_acq l m b c : lock_of b = Some (l, m) -> body_ok b -> wf c -> wf (Acq l m :: Body b :: c)
+| wf_acq l m b c : lock_of b = Some (l, m) -> body_ok b -> entry_ok b -> wf c -> wf (Acq l m :: Body b :: c)
 | wf_body b c : lock_of b = None -> wf c -> wf (Body b :: c)
 | wf_cb k c : wf c -> wf (Cb k :: c)
 | wf_ret v c : wf c -> wf (Ret v :: c).
@@ -120,10 +122,17 @@ Proof.
   - (* BOpen1 *) destruct (has_pent st r p); cbn; repeat constructor; auto.
   - (* BOpen2 *) destruct (has_pent st r p); cbn; [repeat constructor; auto|].
     constructor. destruct (port_out st r); cbn.
-    + constructor. constructor; [reflexivity|]. rewrite <- app_assoc. apply wf_opens. cbn. auto with lk.
-    + repeat constructor; auto.
+    + rewrite <- !app_assoc. destruct (port_open st r); cbn.
+      * constructor. constructor; [reflexivity|]. apply wf_opens. cbn. auto with lk.
+      * constructor; [reflexivity|]. apply wf_opens. cbn. auto with lk.
+    + destruct (port_open st r); cbn; repeat constructor; auto.
   - (* BPortDel *) repeat constructor; auto.
-  - (* BPortClose *) repeat constructor; auto.
+  - (* BPortClose *) destruct (port_out st r); cbn; [repeat constructor; auto|].
+    constructor. rewrite <- app_assoc. destruct (port_open st r); cbn; [|auto with lk].
+    induction (rev (seq 0 (length (pcfg st)))) as [|o os IH]; cbn; [auto with lk|].
+    destruct (port_out st o && existsb (Nat.eqb r) (port_ins0 st o)); cbn; auto.
+    constructor; auto; try reflexivity; exact I.
+  - (* BUnlink *) repeat constructor; auto.
 Qed.
 
 Lemma exec_free b st c : lock_of b = None -> wf c -> wf (snd (exec b st) ++ c).
@@ -172,13 +181,13 @@ Proof.
   destruct c as [|i c]; [exact H|].
   destruct i as [l m|l m|b|k|v].
   - (* Acq *) destruct (can_acquire st l m); [|exact H].
-    apply TInv_set; auto. unfold tinv; cbn.
+    apply TInv_set with (st := st); auto. unfold tinv; cbn.
     destruct hd as [[l0 m0]|]; inversion T; subst. apply il_body; auto.
-  - (* Rel *) apply TInv_set; auto. unfold tinv; cbn.
+  - (* Rel *) apply TInv_set with (st := st); auto. unfold tinv; cbn.
     destruct hd as [[l0 m0]|]; inversion T; subst; auto.
   - (* Body *) destruct (exec b st) as [st' frag] eqn:EX.
     pose proof (exec_threads b st) as ET. rewrite EX in ET. cbn in ET.
-    apply TInv_set; auto. unfold tinv; cbn.
+    apply TInv_set with (st := st); auto. unfold tinv; cbn.
     destruct hd as [[l0 m0]|]; inversion T; subst.
     + change frag with (snd (st', frag)). rewrite <- EX. apply exec_locked; auto.
     + change frag with (snd (st', frag)). rewrite <- EX. apply exec_free; auto.
@@ -196,9 +205,9 @@ Proof. destruct m; cbn; intros N; try contradiction; repeat constructor. Qed.
 
 Lemma l_step_TInv st op : op_ok op -> TInv st -> TInv (l_step st op).
 Proof.
-  intros OK H. destruct op as [t m| |t]; cbn.
+  intros OK H. destruct op as [t m| |t]; cbn [l_step].
   - destruct (Nat.ltb t (length (threads st))) eqn:Lt; [|exact H]. apply Nat.ltb_lt in Lt.
-    apply TInv_set; auto. pose proof (H t Lt) as T. unfold tinv in *. cbn.
+    apply TInv_set with (st := st); auto. pose proof (H t Lt) as T. unfold tinv in *. cbn.
     destruct (held (get_thread st t)) as [[l0 m0]|].
     + apply inlock_app; auto. apply wf_template', OK.
     + apply wf_app; auto. apply wf_template', OK.
@@ -276,4 +285,797 @@ Proof.
     destruct (cont (get_thread st j)) as [|i c]; [congruence|].
     destruct i; auto. unfold can_acquire.
     destruct (existsb_holds_false st l F) as [E1 E2]. destruct m; [rewrite E1|rewrite E2]; reflexivity.
+Qed.
+
+(* ---------- the shape of a step ---------- *)
+Lemma step_cases st t :
+  step st t = st \/
+  (t < length (threads st) /\ exists hd i c, get_thread st t = mkthr hd (i :: c) /\
+     match i with
+     | Acq l m => can_acquire st l m = true /\ step st t = set_thread st t (mkthr (Some (l, m)) c)
+     | Rel l m => step st t = set_thread st t (mkthr None c)
+     | Body b => step st t = set_thread (fst (exec b st)) t (mkthr hd (snd (exec b st) ++ c))
+     | Cb k => step st t = set_thread (add_log st (ECb t k)) t (mkthr hd c)
+     | Ret v => step st t = set_thread (add_log st (ERet t v)) t (mkthr hd c)
+     end).
+Proof.
+  unfold step. destruct (Nat.ltb t (length (threads st))) eqn:Lt.
+  2:{ apply Nat.ltb_ge in Lt. unfold get_thread. rewrite nth_overflow by exact Lt. cbn. left. reflexivity. }
+  apply Nat.ltb_lt in Lt. destruct (get_thread st t) as [hd c] eqn:TH. cbn.
+  destruct c as [|i c]; [left; reflexivity|].
+  destruct i as [l m|l m|b|k|v].
+  - destruct (can_acquire st l m) eqn:CA; [|left; reflexivity].
+    right. split; auto. exists hd, (Acq l m), c. auto.
+  - right. split; auto. exists hd, (Rel l m), c. auto.
+  - right. split; auto. exists hd, (Body b), c. split; auto. destruct (exec b st); reflexivity.
+  - right. split; auto. exists hd, (Cb k), c. auto.
+  - right. split; auto. exists hd, (Ret v), c. auto.
+Qed.
+
+Lemma get_thread_threads_eq st st' j : threads st' = threads st -> get_thread st' j = get_thread st j.
+Proof. intros E. unfold get_thread. rewrite E. reflexivity. Qed.
+
+(* ---------- invariant 2: locks exclude ---------- *)
+Lemma res_eqb_eq a b : res_eqb a b = true <-> a = b.
+Proof.
+  destruct a, b; cbn; split; intros H; try discriminate; try reflexivity.
+  - apply Nat.eqb_eq in H. subst. reflexivity.
+  - inversion H. apply Nat.eqb_refl.
+Qed.
+Lemma lockid_eqb_eq a b : lockid_eqb a b = true <-> a = b.
+Proof.
+  destruct a, b; cbn; split; intros H; try discriminate.
+  - apply res_eqb_eq in H. subst. reflexivity.
+  - inversion H. apply res_eqb_eq. reflexivity.
+  - apply Nat.eqb_eq in H. subst. reflexivity.
+  - inversion H. apply Nat.eqb_refl.
+Qed.
+Lemma lockid_eqb_refl a : lockid_eqb a a = true.
+Proof. apply lockid_eqb_eq. reflexivity. Qed.
+
+Lemma existsb_nth_false {A} f (l : list A) j d : existsb f l = false -> j < length l -> f (nth j l d) = false.
+Proof.
+  revert j. induction l as [|a l IH]; intros j E Hj; cbn in *; [lia|].
+  apply orb_false_iff in E. destruct E as [E1 E2]. destruct j; auto. apply IH; auto. lia.
+Qed.
+
+Definition MInv (st : lstate) : Prop :=
+  forall i j l m, i < length (threads st) -> j < length (threads st) -> i <> j ->
+    held (get_thread st i) = Some (l, MW) -> held (get_thread st j) <> Some (l, m).
+
+Lemma MInv_held st st2 :
+  length (threads st2) = length (threads st) ->
+  (forall k, held (get_thread st2 k) = held (get_thread st k)) -> MInv st -> MInv st2.
+Proof. intros L E H i j l m Hi Hj N. rewrite L in *. rewrite !E. apply H; auto. Qed.
+
+Lemma held_set_same st st' t hd c :
+  threads st' = threads st -> held (get_thread st t) = hd ->
+  forall k, held (get_thread (set_thread st' t (mkthr hd c)) k) = held (get_thread st k).
+Proof.
+  intros E Hh k. rewrite get_thread_set, (get_thread_threads_eq st st' k E).
+  destruct (Nat.eqb k t) eqn:Ek; auto. apply Nat.eqb_eq in Ek. subst k.
+  destruct (Nat.ltb t _); auto.
+Qed.
+
+Lemma step_MInv st t : MInv st -> MInv (step st t).
+Proof.
+  intros H. destruct (step_cases st t) as [E|[Lt [hd [i [c [TH S]]]]]]; [rewrite E; exact H|].
+  assert (Lt' : Nat.ltb t (length (threads st)) = true) by (apply Nat.ltb_lt; exact Lt).
+  destruct i as [l m|l m|b|k|v].
+  - destruct S as [CA S]. rewrite S. intros i j l0 m0 Hi Hj Nij. rewrite length_threads_set in Hi, Hj.
+    rewrite !get_thread_set, Lt'.
+    destruct (Nat.eqb i t) eqn:Ei; destruct (Nat.eqb j t) eqn:Ej.
+    + apply Nat.eqb_eq in Ei, Ej. congruence.
+    + cbn. intros X Y. inversion X; subst. unfold can_acquire in CA.
+      apply negb_true_iff in CA. pose proof (existsb_nth_false _ _ j (mkthr None []) CA Hj) as F.
+      unfold holds in F. fold (get_thread st j) in F. rewrite Y, lockid_eqb_refl in F. discriminate.
+    + cbn. intros X Y. inversion Y; subst. unfold can_acquire in CA.
+      assert (W : holds_w l0 (get_thread st i) = true) by (unfold holds_w; rewrite X; apply lockid_eqb_refl).
+      assert (W2 : holds l0 (get_thread st i) = true) by (unfold holds; rewrite X; apply lockid_eqb_refl).
+      destruct m0; apply negb_true_iff in CA;
+        pose proof (existsb_nth_false _ _ i (mkthr None []) CA Hi) as F; fold (get_thread st i) in F; congruence.
+    + apply H; auto.
+  - rewrite S. intros i j l0 m0 Hi Hj Nij. rewrite length_threads_set in Hi, Hj.
+    rewrite !get_thread_set, Lt'.
+    destruct (Nat.eqb i t) eqn:Ei; destruct (Nat.eqb j t) eqn:Ej; cbn.
+    + intros X; discriminate.
+    + intros X; discriminate.
+    + intros _ X; discriminate.
+    + apply H; auto.
+  - rewrite S. eapply MInv_held; [| |exact H].
+    + rewrite length_threads_set, exec_threads. reflexivity.
+    + apply held_set_same; [apply exec_threads|rewrite TH; reflexivity].
+  - rewrite S. eapply MInv_held; [| |exact H].
+    + rewrite length_threads_set. reflexivity.
+    + apply held_set_same; [reflexivity|rewrite TH; reflexivity].
+  - rewrite S. eapply MInv_held; [| |exact H].
+    + rewrite length_threads_set. reflexivity.
+    + apply held_set_same; [reflexivity|rewrite TH; reflexivity].
+Qed.
+
+(* ---------- invariant 3: a lazy cell's initialiser runs at most once ---------- *)
+Definition is_done_body (p g : nat) (i : instr) : Prop := i = Body (BLzDone p g).
+Definition no_done (c : list instr) : Prop := forall p g, ~ In (Body (BLzDone p g)) c.
+
+Lemma wf_no_done c : wf c -> no_done c.
+Proof.
+  induction 1; intros p g I; cbn in I.
+  - exact I.
+  - destruct I as [E|[E|I]]; [discriminate| |eapply IHwf; exact I].
+    inversion E; subst. contradiction.
+  - destruct I as [E|I]; [|eapply IHwf; exact I]. inversion E; subst. discriminate.
+  - destruct I as [E|I]; [discriminate|eapply IHwf; exact I].
+  - destruct I as [E|I]; [discriminate|eapply IHwf; exact I].
+Qed.
+
+Lemma no_done_cbs (f : nat -> cbkind) hs : no_done (map (fun h => Cb (f h)) hs).
+Proof. intros p g I. apply in_map_iff in I. destruct I as [x [E _]]. discriminate. Qed.
+
+Ltac in_inv H :=
+  repeat (cbn in H;
+          match type of H with
+          | In _ [] => contradiction
+          | _ = _ \/ _ => destruct H as [H|H]; [try discriminate|]
+          | In _ (_ :: _) => destruct H as [H|H]; [try discriminate|]
+          | In _ (_ ++ _) => apply in_app_or in H; destruct H as [H|H]
+          | In _ (map _ _) => apply in_map_iff in H; destruct H as [? [H _]]; try discriminate
+          | In _ (if ?x then _ else _) => destruct x eqn:?
+          | In _ (match ?x with _ => _ end) => destruct x eqn:?
+          | In _ (after_do _ _ _) => unfold after_do in H
+          | False => contradiction
+          | context [match ?x with _ => _ end] => destruct x eqn:?
+          end).
+
+(* only lazy.Do on a cell that is not done schedules the recording of a result *)
+Lemma exec_done_origin b st p g :
+  In (Body (BLzDone p g)) (snd (exec b st)) -> b = BLzEnter p g /\ c_done (get_cell st g) = false.
+Proof.
+  intros I. destruct b as [| | | | | |q g'| | | | | | | | | | | | |q h|q]; cbn in I.
+  all: try (in_inv I; fail).
+  - (* BLzEnter *) destruct (c_done (get_cell st g')) eqn:D; in_inv I. inversion I; subst. auto.
+  - (* BPortClose *) exfalso. destruct (port_out st r); [in_inv I|]. cbn [snd] in I.
+    destruct I as [I|I]; [discriminate|]. apply in_app_or in I. destruct I as [I|I]; [|in_inv I].
+    destruct (port_open st r); [|contradiction].
+    induction (rev (seq 0 (length (pcfg st)))) as [|o os IH]; cbn in I; [contradiction|].
+    apply in_app_or in I. destruct I as [I|I]; [|auto].
+    destruct (port_out st o && existsb (Nat.eqb r) (port_ins0 st o)); in_inv I.
+  - (* BHook *) destruct (alive (get_proc st q)); [contradiction|]. destruct h as [[|r]|k]; in_inv I.
+  - (* BExit *) destruct (alive (get_proc st q)); [|contradiction].
+    exfalso. eapply wf_no_done; [apply (wf_hook_progs q (rev (phooks (get_proc st q))))|exact I].
+Qed.
+
+Definition CInv (st : lstate) : Prop :=
+  (forall j p g, j < length (threads st) -> In (Body (BLzDone p g)) (cont (get_thread st j)) ->
+     held (get_thread st j) = Some (LLazy g, MW) /\ c_done (get_cell st g) = false) /\
+  (forall g, count_inits_cell g (log st) =
+     if Nat.ltb g (length (cells st)) then (if c_done (get_cell st g) then 1 else 0) else 0).
+
+Lemma done_false_lt st g : c_done (get_cell st g) = false -> g < length (cells st).
+Proof.
+  intros D. destruct (Nat.ltb g (length (cells st))) eqn:L; [apply Nat.ltb_lt; exact L|].
+  apply Nat.ltb_ge in L. unfold get_cell in D. rewrite nth_overflow in D by exact L. discriminate.
+Qed.
+
+Lemma count_cell_app g l1 l2 : count_inits_cell g (l1 ++ l2) = count_inits_cell g l1 + count_inits_cell g l2.
+Proof. unfold count_inits_cell. rewrite filter_app, app_length. reflexivity. Qed.
+Lemma count_inits_app p l1 l2 : count_inits p (l1 ++ l2) = count_inits p l1 + count_inits p l2.
+Proof. unfold count_inits. rewrite filter_app, app_length. reflexivity. Qed.
+Lemma count_dels_app p l1 l2 : count_dels p (l1 ++ l2) = count_dels p l1 + count_dels p l2.
+Proof. unfold count_dels. rewrite filter_app, app_length. reflexivity. Qed.
+
+(* effect of a body on cells and log *)
+Lemma exec_cells_log b st :
+  (exists p g, b = BLzDone p g) \/
+  ((exists es, log (fst (exec b st)) = log st ++ es /\ forall g, count_inits_cell g es = 0 /\ forall p, count_inits p es = 0) /\
+   (cells (fst (exec b st)) = cells st \/
+    exists p f fl, cells (fst (exec b st)) = cells st ++ [mkcell p f fl false] /\
+                   alookup p (eager st) = None /\ alookup p (lazy st) = None /\
+                   lazy (fst (exec b st)) = aset p (length (cells st)) (lazy st) /\ eager (fst (exec b st)) = eager st /\
+                   log (fst (exec b st)) = log st)).
+Proof.
+  destruct b; try (left; eauto; fail); right; cbn.
+  all: repeat match goal with
+              | |- context [match ?x with _ => _ end] => destruct x eqn:?; cbn
+              end.
+  all: try (split; [exists []; rewrite app_nil_r; split; [reflexivity|intros; split; [reflexivity|intros; reflexivity]] | left; reflexivity]).
+  all: try (split; [eexists [_]; split; [reflexivity|intros; split; [reflexivity|intros; reflexivity]] | left; reflexivity]).
+  (* BLos2 creating a cell *)
+  split; [exists []; rewrite app_nil_r; split; [reflexivity|intros; split; [reflexivity|intros; reflexivity]]|].
+  right. exists p, f, fails. repeat split; auto.
+Qed.
+
+Lemma get_cell_app_lt st c g : g < length (cells st) -> nth g (cells st ++ [c]) (mkcell 0 0 false true) = get_cell st g.
+Proof. intros L. unfold get_cell. apply app_nth1, L. Qed.
+
+Lemma filter_set_nth_same {A} (f : A -> bool) g x (l : list A) d :
+  f (nth g l d) = f x -> length (filter f (set_nth g x l)) = length (filter f l).
+Proof.
+  revert g. induction l as [|a l IH]; intros [|g] E; cbn in *; auto.
+  - rewrite E. destruct (f x); reflexivity.
+  - destruct (f a); cbn; auto.
+Qed.
+Lemma filter_set_nth_drop {A} (f : A -> bool) g x (l : list A) d :
+  g < length l -> f (nth g l d) = true -> f x = false -> S (length (filter f (set_nth g x l))) = length (filter f l).
+Proof.
+  revert g. induction l as [|a l IH]; intros [|g] L E1 E2; cbn in *; try lia.
+  - rewrite E1, E2. reflexivity.
+  - destruct (f a); cbn; rewrite <- (IH g) by (auto; lia); reflexivity.
+Qed.
+
+Lemma step_CInv st t : TInv st -> MInv st -> CInv st -> CInv (step st t).
+Proof.
+  intros HT HM [H1 H2]. destruct (step_cases st t) as [E|[Lt [hd [i [c [TH S]]]]]]; [rewrite E; split; assumption|].
+  assert (Lt' : Nat.ltb t (length (threads st)) = true) by (apply Nat.ltb_lt; exact Lt).
+  pose proof (HT t Lt) as Tt. unfold tinv in Tt. rewrite TH in Tt. cbn in Tt.
+  (* instructions other than bodies leave cells and log counts alone and only shorten t's continuation *)
+  assert (Simple : forall st2 hd2,
+             cells st2 = cells st -> (forall g, count_inits_cell g (log st2) = count_inits_cell g (log st)) ->
+             threads st2 = threads st ->
+             (forall p g, In (Body (BLzDone p g)) c -> hd2 = Some (LLazy g, MW)) ->
+             CInv (set_thread st2 t (mkthr hd2 c))).
+  { intros st2 hd2 EC EL ET HD. split.
+    - intros j p g Hj I. rewrite length_threads_set, ET in Hj. rewrite get_thread_set, ET, Lt' in *.
+      rewrite (get_thread_threads_eq st st2 j ET) in *.
+      assert (GC : get_cell (set_thread st2 t (mkthr hd2 c)) g = get_cell st g) by (unfold get_cell; cbn; rewrite EC; reflexivity).
+      rewrite GC. destruct (Nat.eqb j t) eqn:Ej.
+      + cbn in *. split; [apply HD with (p := p); exact I|].
+        apply Nat.eqb_eq in Ej. subst j. apply (H1 t p g Lt). rewrite TH. cbn. right. exact I.
+      + apply (H1 j p g); auto.
+    - intros g. cbn [log cells set_thread with_threads]. rewrite EC, EL, H2. unfold get_cell. cbn [cells set_thread with_threads]. rewrite EC. reflexivity. }
+  destruct i as [l m|l m|b|k|v].
+  - destruct S as [_ S]. rewrite S. apply Simple; auto.
+    intros p g I. exfalso. destruct hd as [[l0 m0]|]; [inversion Tt|].
+    eapply (wf_no_done _ Tt p g). right. exact I.
+  - rewrite S. apply Simple; auto.
+    intros p g I. exfalso. destruct hd as [[l0 m0]|]; [|inversion Tt].
+    inversion Tt; subst. eapply wf_no_done; [|exact I]. assumption.
+  - (* Body *)
+    rewrite S. clear Simple.
+    pose proof (exec_threads b st) as ET.
+    destruct (exec_cells_log b st) as [[p0 [g0 EB]]|[[es [EL EZ]] EC]].
+    + (* the initialiser returned: BLzDone p0 g0 *)
+      subst b.
+      destruct (H1 t p0 g0 Lt) as [Hh Hd]; [rewrite TH; cbn [cont]; left; reflexivity|].
+      rewrite TH in Hh. cbn [held] in Hh. subst hd. inversion Tt as [| ? ? LB OKb Wc | |]; subst.
+      pose proof (done_false_lt st g0 Hd) as Lg.
+      assert (Lb : Nat.ltb g0 (length (cells st)) = true) by (apply Nat.ltb_lt; exact Lg).
+      set (cd := mkcell (c_proc (get_cell st g0)) (c_fn (get_cell st g0)) (c_fails (get_cell st g0)) true).
+      set (st1 := fst (exec (BLzDone p0 g0) st)).
+      assert (C1 : cells st1 = set_nth g0 cd (cells st)) by reflexivity.
+      assert (L1 : log st1 = log st ++ [EInit (c_proc (get_cell st g0)) g0 (c_fn (get_cell st g0))]) by reflexivity.
+      assert (F1 : snd (exec (BLzDone p0 g0) st) = Rel (LLazy g0) MW :: after_do p0 g0 (get_cell st g0)) by reflexivity.
+      assert (T1 : threads st1 = threads st) by reflexivity.
+      rewrite F1. clear F1.
+      split.
+      * intros j p g Hj I. rewrite length_threads_set, T1 in Hj.
+        rewrite get_thread_set, T1, Lt' in *. rewrite (get_thread_threads_eq st st1 j T1) in *.
+        destruct (Nat.eqb j t) eqn:Ej.
+        -- exfalso. cbn [cont] in I. apply in_app_or in I. destruct I as [I|I]; [|eapply wf_no_done; eauto].
+           destruct I as [I|I]; [discriminate|]. unfold after_do in I. in_inv I.
+        -- apply Nat.eqb_neq in Ej.
+           destruct (H1 j p g Hj I) as [Hj1 Hj2]. split; auto.
+           destruct (Nat.eq_dec g g0) as [->|Ng].
+           ++ exfalso. apply (HM t j (LLazy g0) MW Lt Hj); auto. rewrite TH. reflexivity.
+           ++ unfold get_cell. cbn [cells set_thread with_threads]. rewrite C1, nth_set_nth.
+              destruct (Nat.eqb g g0) eqn:Eg; [apply Nat.eqb_eq in Eg; congruence|]. exact Hj2.
+      * intros g. cbn [log cells set_thread with_threads]. unfold get_cell. cbn [cells set_thread with_threads].
+        rewrite L1, C1, count_cell_app, H2, length_set_nth, nth_set_nth, Lb.
+        unfold count_inits_cell at 1. cbn [filter length].
+        destruct (Nat.eqb g g0) eqn:Eg.
+        -- apply Nat.eqb_eq in Eg. subst g. rewrite Lb, Hd. reflexivity.
+        -- cbn [length]. rewrite Nat.add_0_r. reflexivity.
+    + (* any other body *)
+      assert (NB : forall p g, b <> BLzDone p g).
+      { intros p g ->. cbn in EL. assert (X := f_equal (@length _) EL). rewrite !app_length in X.
+        destruct (EZ g) as [Z _]. destruct es as [|e es]; [cbn in X; lia|].
+        apply app_inv_head in EL. inversion EL; subst. unfold count_inits_cell in Z. cbn in Z. rewrite Nat.eqb_refl in Z. discriminate. }
+      assert (CellKeep : forall g, c_done (get_cell st g) = false -> c_done (get_cell (fst (exec b st)) g) = false).
+      { intros g D. pose proof (done_false_lt st g D) as Lg. unfold get_cell at 1.
+        destruct EC as [EC|[p [f [fl [EC _]]]]]; rewrite EC; [exact D|]. rewrite get_cell_app_lt; auto. }
+      split.
+      * intros j p g Hj I. rewrite length_threads_set, ET in Hj. rewrite get_thread_set, ET, Lt' in *.
+        rewrite (get_thread_threads_eq st _ j ET) in *.
+        assert (GC : get_cell (set_thread (fst (exec b st)) t (mkthr hd (snd (exec b st) ++ c))) g = get_cell (fst (exec b st)) g) by reflexivity.
+        rewrite GC. destruct (Nat.eqb j t) eqn:Ej.
+        -- cbn [cont held] in *. apply in_app_or in I. destruct I as [I|I].
+           ++ destruct (exec_done_origin b st p g I) as [EB D]. subst b. split; [|apply CellKeep; exact D].
+              destruct hd as [[l0 m0]|]; inversion Tt; subst.
+              ** match goal with X : lock_of _ = Some _ |- _ => cbn in X; inversion X; reflexivity end.
+              ** match goal with X : lock_of _ = None |- _ => cbn in X; discriminate end.
+           ++ destruct (H1 t p g Lt) as [Hh Hd]; [rewrite TH; cbn [cont]; right; exact I|].
+              rewrite TH in Hh. cbn [held] in Hh. split; auto.
+        -- destruct (H1 j p g Hj I) as [Hj1 Hj2]. split; auto.
+      * intros g.
+        change (log (set_thread (fst (exec b st)) t (mkthr hd (snd (exec b st) ++ c)))) with (log (fst (exec b st))).
+        change (cells (set_thread (fst (exec b st)) t (mkthr hd (snd (exec b st) ++ c)))) with (cells (fst (exec b st))).
+        change (get_cell (set_thread (fst (exec b st)) t (mkthr hd (snd (exec b st) ++ c))) g) with (get_cell (fst (exec b st)) g).
+        rewrite EL, count_cell_app, (proj1 (EZ g)), Nat.add_0_r, H2.
+        destruct EC as [EC|[p [f [fl [EC _]]]]].
+        -- unfold get_cell. rewrite EC. reflexivity.
+        -- unfold get_cell at 2. rewrite EC, app_length. cbn [length].
+           destruct (Nat.ltb g (length (cells st))) eqn:L1.
+           ++ apply Nat.ltb_lt in L1. assert (L2 : Nat.ltb g (length (cells st) + 1) = true) by (apply Nat.ltb_lt; lia).
+              rewrite L2, get_cell_app_lt; auto.
+           ++ apply Nat.ltb_ge in L1. destruct (Nat.ltb g (length (cells st) + 1)) eqn:L2; [|reflexivity].
+              apply Nat.ltb_lt in L2. assert (g = length (cells st)) by lia. subst g.
+              rewrite app_nth2, Nat.sub_diag; auto.
+  - rewrite S. apply Simple; auto.
+    + intros g. cbn [log add_log]. rewrite count_cell_app. cbn. lia.
+    + intros p g I. destruct (H1 t p g Lt) as [Hh _]; [rewrite TH; cbn [cont]; right; exact I|]. rewrite TH in Hh. exact Hh.
+  - rewrite S. apply Simple; auto.
+    + intros g. cbn [log add_log]. rewrite count_cell_app. cbn. lia.
+    + intros p g I. destruct (H1 t p g Lt) as [Hh _]; [rewrite TH; cbn [cont]; right; exact I|]. rewrite TH in Hh. exact Hh.
+Qed.
+
+(* ---------- invariant 4: whatever is held for a process is covered by a cleanup ---------- *)
+Definition cleanup_instr (r : res) (p : nat) (i : instr) : Prop :=
+  i = Body (BHook p (HClean r)) \/
+  match r with
+  | RLocal => i = Body (BDelete p false)
+  | RPort n => i = Body (BPortDel n p)
+  end.
+
+Definition pending (st : lstate) (r : res) (p : nat) : Prop :=
+  exists j, j < length (threads st) /\ exists i, In i (cont (get_thread st j)) /\ cleanup_instr r p i.
+Definition registered (st : lstate) (r : res) (p : nat) : Prop :=
+  alive (get_proc st p) = true /\ In (HClean r) (phooks (get_proc st p)).
+Definition RInv (st : lstate) : Prop := forall r p, present st r p -> registered st r p \/ pending st r p.
+
+Lemma present_ext st st' r p :
+  eager st' = eager st -> lazy st' = lazy st -> shooks st' = shooks st -> pents st' = pents st ->
+  (present st' r p <-> present st r p).
+Proof. intros E1 E2 E3 E4. unfold present, has_pent. rewrite E1, E2, E3, E4. tauto. Qed.
+
+Lemma registered_ext st st' r p : procs st' = procs st -> (registered st' r p <-> registered st r p).
+Proof. intros E. unfold registered, get_proc. rewrite E. tauto. Qed.
+
+Lemma alookup_none_dec {A} k (l : list (nat * A)) : alookup k l = None \/ alookup k l <> None.
+Proof. destruct (alookup k l); [right; congruence|left; reflexivity]. Qed.
+
+Lemma has_pent_cons st r p r0 p0 :
+  existsb (pent_eqb (r, p)) ((r0, p0) :: pents st) = true -> (r = r0 /\ p = p0) \/ has_pent st r p = true.
+Proof.
+  cbn. intros H. apply orb_true_iff in H. destruct H as [H|H]; [left|right; exact H].
+  unfold pent_eqb in H. cbn in H. apply andb_true_iff in H. destruct H as [A B].
+  apply Nat.eqb_eq in A, B. auto.
+Qed.
+
+Lemma existsb_filter_sub {A} (f g : A -> bool) l : existsb f (filter g l) = true -> existsb f l = true.
+Proof.
+  induction l as [|a l IH]; cbn; auto. destruct (g a); cbn; intros H.
+  - apply orb_true_iff in H. apply orb_true_iff. destruct H; auto.
+  - apply orb_true_iff. right. auto.
+Qed.
+
+Lemma existsb_filter_self l r p :
+  existsb (pent_eqb (r, p)) (filter (fun e => negb (pent_eqb (r, p) e)) l) = false.
+Proof.
+  induction l as [|a l IH]; cbn; auto. destruct (pent_eqb (r, p) a) eqn:E; cbn; auto. rewrite E. exact IH.
+Qed.
+
+Ltac sp P := cbn [present exec fst snd eager lazy shooks pents with_local with_cells with_pents with_procs add_log] in P.
+
+(* A: what is newly held comes with its cleanup in the rest of the method *)
+Lemma exec_present b st r p :
+  present (fst (exec b st)) r p ->
+  present st r p \/ exists i, In i (snd (exec b st)) /\ cleanup_instr r p i.
+Proof.
+  intros P.
+  destruct b as [q|q v|q v|q u|q f fl|q f fl|q g|q g|q g|q h|q h| | |n q|n q|n q|n q|n|o n|q h|q].
+  all: try (left; exact P).
+  - (* BStore *)
+    destruct r as [|n]; [|left; exact P].
+    destruct (Nat.eq_dec q p) as [->|N].
+    + cbn. destruct (alookup p (eager st)) eqn:E.
+      * left. left. congruence.
+      * right. eexists. split; [right; left; reflexivity|left; reflexivity].
+    + left. sp P. rewrite alookup_aset_other, alookup_aremove_other in P by exact N. exact P.
+  - (* BStoreOld *)
+    destruct r as [|n]; [|left; exact P].
+    destruct (Nat.eq_dec q p) as [->|N].
+    + cbn. destruct (alookup p (eager st)) eqn:E.
+      * left. left. congruence.
+      * right. eexists. split; [left; reflexivity|left; reflexivity].
+    + left. sp P. rewrite alookup_aset_other, alookup_aremove_other in P by exact N. exact P.
+  - (* BDelete *)
+    destruct r as [|n]; [|left; exact P].
+    destruct (Nat.eq_dec q p) as [->|N].
+    + exfalso. sp P. rewrite !alookup_aremove_same in P. tauto.
+    + left. sp P. rewrite !alookup_aremove_other in P by exact N. exact P.
+  - (* BLos1 *) cbn in P. destruct (alookup q (eager st)); left; exact P.
+  - (* BLos2 *)
+    cbn in *. destruct (alookup q (eager st)) eqn:E; [left; exact P|].
+    destruct (alookup q (lazy st)) eqn:E2; [left; exact P|].
+    destruct r as [|n]; [|left; exact P].
+    destruct (Nat.eq_dec q p) as [->|N].
+    + right. eexists. split; [right; left; reflexivity|left; reflexivity].
+    + left. sp P. rewrite alookup_aset_other in P by exact N. exact P.
+  - (* BLzEnter *) cbn in P. destruct (c_done (get_cell st g)); left; exact P.
+  - (* BLos3 *)
+    destruct r as [|n]; [|left; exact P].
+    destruct (Nat.eq_dec q p) as [->|N].
+    + right. eexists. split; [right; left; reflexivity|left; reflexivity].
+    + left. sp P. rewrite alookup_aset_other, !alookup_aremove_other in P by exact N. exact P.
+  - (* BAddHook *)
+    cbn in *. destruct (alookup q (eager st)) eqn:E; [left; exact P|].
+    destruct (existsb (Nat.eqb h) match alookup q (shooks st) with Some l => l | None => [] end) eqn:X; [left; exact P|].
+    destruct r as [|n]; [|left; exact P].
+    destruct (Nat.eq_dec q p) as [->|N].
+    + destruct (alookup p (shooks st)) as [[|x hs]|] eqn:E3.
+      * left. right. right. congruence.
+      * left. right. right. congruence.
+      * right. eexists. split; [right; left; reflexivity|left; reflexivity].
+    + left. sp P. rewrite alookup_aset_other in P by exact N. exact P.
+  - (* BRemHook *)
+    cbn in *. destruct (alookup q (shooks st)) eqn:E; [|left; exact P].
+    destruct (existsb (Nat.eqb h) l); [|left; exact P].
+    destruct r as [|n]; [|left; exact P].
+    destruct (Nat.eq_dec q p) as [->|N].
+    + left. right. right. congruence.
+    + left. sp P. rewrite alookup_aset_other in P by exact N. exact P.
+  - (* BCloseLocal *)
+    destruct r as [|n]; [|left; exact P]. exfalso. cbn in P. tauto.
+  - (* BOpen0 *) cbn in P. destruct (alive (get_proc st q)); left; exact P.
+  - (* BOpen1 *) cbn in P. destruct (has_pent st n q); left; exact P.
+  - (* BOpen2 *)
+    cbn in *. destruct (has_pent st n q) eqn:E; [left; exact P|].
+    destruct r as [|n']; [left; exact P|]. cbn in P. unfold has_pent in P. cbn [pents with_pents] in P.
+    apply has_pent_cons in P. destruct P as [[-> ->]|P]; [|left; exact P].
+    right. exists (Body (BHook q (HClean (RPort n)))). split; [|left; reflexivity].
+    right. apply in_or_app. left. destruct (port_out st n).
+    + apply in_or_app. right. left. reflexivity.
+    + left. reflexivity.
+  - (* BPortDel *)
+    destruct r as [|n']; [left; exact P|]. left. cbn in *. unfold has_pent in *. cbn [pents with_pents] in P.
+    eapply existsb_filter_sub, P.
+  - (* BPortClose *)
+    left. cbn [exec] in P. destruct (port_out st n); [exact P|].
+    destruct r as [|n']; [exact P|]. cbn in *. unfold has_pent in *. cbn [pents with_pents with_pdyn] in P.
+    eapply existsb_filter_sub, P.
+  - (* BHook *) cbn in P. destruct (alive (get_proc st q)); left; exact P.
+  - (* BExit *) cbn in P. destruct (alive (get_proc st q)); left; exact P.
+Qed.
+
+Lemma get_proc_set st q pr p :
+  get_proc (with_procs st (set_nth q pr (procs st))) p =
+  if Nat.eqb p q then (if Nat.ltb q (length (procs st)) then pr else get_proc st p) else get_proc st p.
+Proof. unfold get_proc. cbn [procs with_procs]. apply nth_set_nth. Qed.
+
+Lemma alive_lt st q : alive (get_proc st q) = true -> Nat.ltb q (length (procs st)) = true.
+Proof.
+  intros A. destruct (Nat.ltb q (length (procs st))) eqn:L; auto.
+  apply Nat.ltb_ge in L. unfold get_proc in A. rewrite nth_overflow in A by exact L. discriminate.
+Qed.
+
+Lemma cleanup_in_hook_prog p r : exists i, In i (hook_prog p (HClean r)) /\ cleanup_instr r p i.
+Proof.
+  destruct r as [|n]; cbn; eexists; (split; [right; left; reflexivity|right; reflexivity]).
+Qed.
+
+Lemma cleanup_in_hook_progs p r hs :
+  In (HClean r) hs -> exists i, In i (flat_map (hook_prog p) hs) /\ cleanup_instr r p i.
+Proof.
+  intros I. destruct (cleanup_in_hook_prog p r) as [i [I1 I2]]. exists i. split; auto.
+  apply in_flat_map. exists (HClean r). auto.
+Qed.
+
+(* B: a registered cleanup stays registered, or the exiting thread has it to run *)
+Lemma exec_registered b st r p :
+  registered st r p ->
+  registered (fst (exec b st)) r p \/ exists i, In i (snd (exec b st)) /\ cleanup_instr r p i.
+Proof.
+  intros [A I].
+  assert (Keep : procs (fst (exec b st)) = procs st -> registered (fst (exec b st)) r p).
+  { intros E. apply (registered_ext st); auto. split; assumption. }
+  destruct b as [q|q v|q v|q u|q f fl|q f fl|q g|q g|q g|q h|q h| | |n q|n q|n q|n q|n|o n|q h|q].
+  all: try (left; apply Keep; cbn;
+            repeat match goal with |- context [match ?x with _ => _ end] => destruct x; cbn end; reflexivity).
+  - (* BHook *)
+    cbn [exec]. destruct (alive (get_proc st q)) eqn:Aq; [|left; exact (conj A I)].
+    left. unfold registered. cbn [fst]. rewrite !get_proc_set.
+    destruct (Nat.eqb p q) eqn:E; [|exact (conj A I)].
+    apply Nat.eqb_eq in E. subst q. rewrite (alive_lt st p Aq). cbn. split; auto. apply in_or_app. left. exact I.
+  - (* BExit *)
+    cbn [exec]. destruct (alive (get_proc st q)) eqn:Aq; [|left; exact (conj A I)].
+    destruct (Nat.eqb p q) eqn:E.
+    + apply Nat.eqb_eq in E. subst q. right. cbn [snd]. apply cleanup_in_hook_progs. apply in_rev. rewrite rev_involutive. exact I.
+    + left. unfold registered. cbn [fst]. rewrite !get_proc_set, E. exact (conj A I).
+Qed.
+
+(* C: when a cleanup instruction runs, the entry is gone, or the cleanup is registered, or it is what the thread does next *)
+Lemma exec_cleanup b st r p :
+  cleanup_instr r p (Body b) -> present (fst (exec b st)) r p ->
+  registered (fst (exec b st)) r p \/ exists i, In i (snd (exec b st)) /\ cleanup_instr r p i.
+Proof.
+  intros [E|E] P.
+  - inversion E; subst. cbn [exec] in *. destruct (alive (get_proc st p)) eqn:A.
+    + left. unfold registered. cbn [fst]. rewrite !get_proc_set, Nat.eqb_refl, (alive_lt st p A).
+      cbn. split; auto. apply in_or_app. right. left. reflexivity.
+    + right. cbn [snd]. apply cleanup_in_hook_prog.
+  - destruct r as [|n]; inversion E; subst; exfalso.
+    + sp P. rewrite !alookup_aremove_same in P. tauto.
+    + sp P. unfold has_pent in P. cbn [pents with_pents] in P. rewrite existsb_filter_self in P. discriminate.
+Qed.
+
+Lemma pending_set st st' t th r p :
+  threads st' = threads st -> t < length (threads st) ->
+  (exists i, In i (cont th) /\ cleanup_instr r p i) -> pending (set_thread st' t th) r p.
+Proof.
+  intros E Lt [i [I C]]. exists t. rewrite length_threads_set, E. split; auto.
+  rewrite get_thread_set, E, Nat.eqb_refl. apply Nat.ltb_lt in Lt. rewrite Lt. eauto.
+Qed.
+
+Lemma pending_other st st' t th r p j i :
+  threads st' = threads st -> j < length (threads st) -> j <> t ->
+  In i (cont (get_thread st j)) -> cleanup_instr r p i -> pending (set_thread st' t th) r p.
+Proof.
+  intros E Lj N I C. exists j. rewrite length_threads_set, E. split; auto.
+  rewrite get_thread_set, (get_thread_threads_eq st st' j E).
+  destruct (Nat.eqb j t) eqn:Ej; [apply Nat.eqb_eq in Ej; congruence|]. eauto.
+Qed.
+
+Lemma not_cleanup_simple r p i : (forall b, i <> Body b) -> ~ cleanup_instr r p i.
+Proof. intros N [E|E]; [eapply N; exact E|]. destruct r; eapply N; exact E. Qed.
+
+Lemma step_RInv st t : RInv st -> RInv (step st t).
+Proof.
+  intros H. destruct (step_cases st t) as [E|[Lt [hd [i [c [TH S]]]]]]; [rewrite E; exact H|].
+  (* instructions that are not bodies: maps and processes unchanged, t's continuation loses a non-cleanup *)
+  assert (Simple : forall st2 hd2,
+             eager st2 = eager st -> lazy st2 = lazy st -> shooks st2 = shooks st -> pents st2 = pents st ->
+             procs st2 = procs st -> threads st2 = threads st -> (forall b, i <> Body b) ->
+             RInv (set_thread st2 t (mkthr hd2 c))).
+  { intros st2 hd2 E1 E2 E3 E4 E5 E6 NB r p P.
+    assert (P0 : present st r p).
+    { apply (present_ext st (set_thread st2 t (mkthr hd2 c))); auto. }
+    destruct (H r p P0) as [R|[j [Lj [i0 [I C]]]]].
+    - left. apply (registered_ext st (set_thread st2 t (mkthr hd2 c))); auto.
+    - right. destruct (Nat.eq_dec j t) as [->|N].
+      + apply pending_set with (st := st); auto. exists i0. split; auto. rewrite TH in I. cbn in I.
+        destruct I as [<-|I]; [exfalso; eapply not_cleanup_simple; eauto|exact I].
+      + eapply pending_other; eauto. }
+  destruct i as [l m|l m|b|k|v].
+  - destruct S as [_ S]. rewrite S. apply Simple; auto; discriminate.
+  - rewrite S. apply Simple; auto; discriminate.
+  - rewrite S. clear Simple. pose proof (exec_threads b st) as ET.
+    intros r p P.
+    assert (P1 : present (fst (exec b st)) r p).
+    { apply (present_ext (fst (exec b st)) (set_thread (fst (exec b st)) t (mkthr hd (snd (exec b st) ++ c)))); auto. }
+    assert (Frag : (exists i, In i (snd (exec b st)) /\ cleanup_instr r p i) ->
+                   pending (set_thread (fst (exec b st)) t (mkthr hd (snd (exec b st) ++ c))) r p).
+    { intros [i [I C]]. apply pending_set with (st := st); auto. exists i. split; auto. cbn. apply in_or_app. left. exact I. }
+    assert (Reg : registered (fst (exec b st)) r p ->
+                  registered (set_thread (fst (exec b st)) t (mkthr hd (snd (exec b st) ++ c))) r p).
+    { intros R. apply (registered_ext (fst (exec b st)) (set_thread (fst (exec b st)) t (mkthr hd (snd (exec b st) ++ c)))); auto. }
+    destruct (exec_present b st r p P1) as [P0|F]; [|right; apply Frag, F].
+    destruct (H r p P0) as [R|[j [Lj [i0 [I C]]]]].
+    + destruct (exec_registered b st r p R) as [R'|F]; [left; apply Reg, R'|right; apply Frag, F].
+    + destruct (Nat.eq_dec j t) as [->|N].
+      * rewrite TH in I. cbn in I. destruct I as [<-|I].
+        -- destruct (exec_cleanup b st r p C P1) as [R'|F]; [left; apply Reg, R'|right; apply Frag, F].
+        -- right. apply pending_set with (st := st); auto. exists i0. split; auto. cbn. apply in_or_app. right. exact I.
+      * right. eapply pending_other; eauto.
+  - rewrite S. apply Simple; auto; discriminate.
+  - rewrite S. apply Simple; auto; discriminate.
+Qed.
+
+(* ---------- invariant 5: per process, at most one initialiser run per deletion of its entry ---------- *)
+Definition undone (p : nat) (cs : list cell) : nat :=
+  length (filter (fun c => Nat.eqb (c_proc c) p && negb (c_done c)) cs).
+Definition ind (st : lstate) (p : nat) : nat :=
+  match alookup p (eager st), alookup p (lazy st) with None, None => 0 | _, _ => 1 end.
+Definition PInv (st : lstate) : Prop :=
+  forall p, count_inits p (log st) + undone p (cells st) <= count_dels p (log st) + ind st p.
+
+Lemma ind_le1 st p : ind st p <= 1.
+Proof. unfold ind. destruct (alookup p (eager st)), (alookup p (lazy st)); lia. Qed.
+
+Lemma ind_eager st p v : alookup p (eager st) = Some v -> ind st p = 1.
+Proof. unfold ind. intros ->. reflexivity. Qed.
+
+Ltac spi := cbn [exec fst snd eager lazy shooks pents log cells with_local with_cells with_pents with_procs add_log].
+
+Lemma exec_dels_ind b st p :
+  (forall p0 g0, b <> BLzDone p0 g0) -> cells (fst (exec b st)) = cells st ->
+  count_dels p (log st) + ind st p <= count_dels p (log (fst (exec b st))) + ind (fst (exec b st)) p.
+Proof.
+  intros NB EC.
+  destruct b as [q|q v|q v|q u|q f fl|q f fl|q g|q g|q g|q h|q h| | |n q|n q|n q|n q|n|o n|q h|q].
+  all: try (spi; repeat match goal with |- context [match ?x with _ => _ end] => destruct x; spi end; apply Nat.le_refl).
+  - (* BStore *) spi. destruct (Nat.eq_dec q p) as [->|N].
+    + pose proof (ind_le1 st p). unfold ind at 2. spi. rewrite alookup_aset_same. lia.
+    + unfold ind. spi. rewrite alookup_aset_other by exact N. lia.
+  - (* BStoreOld *) spi. destruct (Nat.eq_dec q p) as [->|N].
+    + pose proof (ind_le1 st p). unfold ind at 2. spi. rewrite alookup_aset_same. lia.
+    + unfold ind. spi. rewrite alookup_aset_other by exact N. lia.
+  - (* BDelete *) spi. rewrite count_dels_app. destruct (Nat.eq_dec q p) as [->|N].
+    + pose proof (ind_le1 st p). unfold count_dels at 3. cbn. rewrite Nat.eqb_refl. cbn. lia.
+    + unfold ind. spi. rewrite !alookup_aremove_other by exact N. lia.
+  - (* BLos2 *) revert EC. spi.
+    destruct (alookup q (eager st)) eqn:E1; spi; [intros _; apply Nat.le_refl|].
+    destruct (alookup q (lazy st)) eqn:E2; spi; [intros _; apply Nat.le_refl|].
+    intros EC. exfalso. assert (X := f_equal (@length _) EC). rewrite app_length in X. cbn in X. lia.
+  - (* BLzDone *) exfalso. eapply NB. reflexivity.
+  - (* BLos3 *) spi. destruct (Nat.eq_dec q p) as [->|N].
+    + pose proof (ind_le1 st p). unfold ind at 2. spi. rewrite alookup_aset_same. lia.
+    + unfold ind. spi. rewrite alookup_aset_other, alookup_aremove_other by exact N. lia.
+  - (* BCloseLocal *) spi. rewrite count_dels_app. pose proof (ind_le1 st p). unfold count_dels at 3. cbn. lia.
+Qed.
+
+Lemma undone_app p cs c : undone p (cs ++ [c]) = undone p cs + (if Nat.eqb (c_proc c) p && negb (c_done c) then 1 else 0).
+Proof. unfold undone. rewrite filter_app, app_length. cbn. destruct (_ && _); reflexivity. Qed.
+
+Lemma step_PInv st t : CInv st -> PInv st -> PInv (step st t).
+Proof.
+  intros [H1 H2] H. destruct (step_cases st t) as [E|[Lt [hd [i [c [TH HS]]]]]]; [rewrite E; exact H|].
+  destruct i as [l m|l m|b|k|v].
+  - destruct HS as [_ HS]. rewrite HS. exact H.
+  - rewrite HS. exact H.
+  - rewrite HS. intros p.
+    change (count_inits p (log (fst (exec b st))) + undone p (cells (fst (exec b st))) <=
+            count_dels p (log (fst (exec b st))) + ind (fst (exec b st)) p).
+    destruct (exec_cells_log b st) as [[p0 [g0 EB]]|[[es [EL EZ]] EC]].
+    + (* BLzDone: one more run, one cell fewer to run *)
+      subst b. destruct (H1 t p0 g0 Lt) as [_ Hd]; [rewrite TH; left; reflexivity|].
+      pose proof (done_false_lt st g0 Hd) as Lg. spi. rewrite count_inits_app, count_dels_app.
+      change (ind _ p) with (ind st p). specialize (H p). unfold undone in *.
+      set (cd := mkcell (c_proc (get_cell st g0)) (c_fn (get_cell st g0)) (c_fails (get_cell st g0)) true).
+      destruct (Nat.eqb (c_proc (get_cell st g0)) p) eqn:Ep.
+      * assert (X : S (length (filter (fun c0 => Nat.eqb (c_proc c0) p && negb (c_done c0)) (set_nth g0 cd (cells st)))) =
+                    length (filter (fun c0 => Nat.eqb (c_proc c0) p && negb (c_done c0)) (cells st))).
+        { apply filter_set_nth_drop with (d := mkcell 0 0 false true); auto.
+          - change (nth g0 (cells st) (mkcell 0 0 false true)) with (get_cell st g0). rewrite Ep, Hd. reflexivity.
+          - cbn. apply andb_false_r. }
+        unfold count_inits at 2, count_dels at 2. cbn. rewrite Nat.eqb_sym, Ep. cbn. lia.
+      * assert (X : length (filter (fun c0 => Nat.eqb (c_proc c0) p && negb (c_done c0)) (set_nth g0 cd (cells st))) =
+                    length (filter (fun c0 => Nat.eqb (c_proc c0) p && negb (c_done c0)) (cells st))).
+        { apply filter_set_nth_same with (d := mkcell 0 0 false true).
+          change (nth g0 (cells st) (mkcell 0 0 false true)) with (get_cell st g0). cbn. rewrite Ep. reflexivity. }
+        unfold count_inits at 2, count_dels at 2. cbn. rewrite Nat.eqb_sym, Ep. cbn. lia.
+    + assert (NB : forall p0 g0, b <> BLzDone p0 g0).
+      { intros p0 g0 ->. cbn in EL. destruct (EZ g0) as [Z _]. destruct es as [|e es].
+        - assert (X := f_equal (@length _) EL). rewrite !app_length in X. cbn in X. lia.
+        - apply app_inv_head in EL. inversion EL; subst. unfold count_inits_cell in Z. cbn in Z. rewrite Nat.eqb_refl in Z. discriminate. }
+      rewrite EL at 1. rewrite count_inits_app, (proj2 (EZ 0) p), Nat.add_0_r.
+      destruct EC as [EC|[q [f [fl [EC [E1 [E2 [E3 [E4 E5]]]]]]]]].
+      * rewrite EC. pose proof (exec_dels_ind b st p NB EC). specialize (H p). lia.
+      * rewrite EC, undone_app, E5. cbn [c_proc c_done negb]. rewrite andb_true_r. specialize (H p).
+        destruct (Nat.eqb q p) eqn:Eq.
+        -- apply Nat.eqb_eq in Eq. subst q. unfold ind in *. rewrite E1, E2 in H. rewrite E4, E3, E1, alookup_aset_same. lia.
+        -- apply Nat.eqb_neq in Eq. unfold ind in *. rewrite E4, E3, alookup_aset_other by exact Eq. lia.
+  - rewrite HS. intros p. specialize (H p). cbn [log cells set_thread with_threads add_log].
+    rewrite count_inits_app, count_dels_app. unfold ind in *. cbn. lia.
+  - rewrite HS. intros p. specialize (H p). cbn [log cells set_thread with_threads add_log].
+    rewrite count_inits_app, count_dels_app. unfold ind in *. cbn. lia.
+Qed.
+
+(* ---------- histories ---------- *)
+Lemma template_no_done m : no_done (template m).
+Proof. intros p g I. destruct m; cbn in I; in_inv I. Qed.
+
+Lemma l_step_MInv st op : MInv st -> MInv (l_step st op).
+Proof.
+  intros H. destruct op as [t m| |t]; cbn [l_step].
+  - destruct (Nat.ltb t (length (threads st))) eqn:Lt; [|exact H].
+    eapply MInv_held; [| |exact H].
+    + rewrite length_threads_set. reflexivity.
+    + apply held_set_same; reflexivity.
+  - exact H.
+  - apply step_MInv, H.
+Qed.
+
+Lemma l_step_CInv st op : TInv st -> MInv st -> CInv st -> CInv (l_step st op).
+Proof.
+  intros HT HM [H1 H2]. destruct op as [t m| |t]; cbn [l_step].
+  - destruct (Nat.ltb t (length (threads st))) eqn:Lt; [|split; assumption].
+    split; [|exact H2].
+    intros j p g Hj I. rewrite length_threads_set in Hj. rewrite get_thread_set, Lt in *.
+    change (get_cell (set_thread st t (mkthr (held (get_thread st t)) (cont (get_thread st t) ++ template m))) g) with (get_cell st g).
+    destruct (Nat.eqb j t) eqn:Ej; [|apply (H1 j p g); auto].
+    apply Nat.eqb_eq in Ej. subst j. cbn [cont held] in *.
+    apply in_app_or in I. destruct I as [I|I]; [apply (H1 t p g); auto|].
+    exfalso. eapply template_no_done, I.
+  - split; assumption.
+  - apply step_CInv; auto. split; assumption.
+Qed.
+
+Lemma l_step_RInv st op : RInv st -> RInv (l_step st op).
+Proof.
+  intros H. destruct op as [t m| |t]; cbn [l_step].
+  - destruct (Nat.ltb t (length (threads st))) eqn:Lt; [|exact H]. apply Nat.ltb_lt in Lt.
+    intros r p P. destruct (H r p P) as [R|[j [Lj [i [I C]]]]]; [left; exact R|right].
+    destruct (Nat.eq_dec j t) as [->|N].
+    + apply pending_set with (st := st); auto. exists i. split; auto. cbn. apply in_or_app. left. exact I.
+    + eapply pending_other; eauto.
+  - intros r p P. destruct (H r p P) as [[A I]|Pe]; [left|right; exact Pe].
+    assert (Lp : p < length (procs st)).
+    { destruct (Nat.ltb p (length (procs st))) eqn:L; [apply Nat.ltb_lt; exact L|].
+      apply Nat.ltb_ge in L. unfold get_proc in A. rewrite nth_overflow in A by exact L. discriminate. }
+    unfold registered, get_proc. cbn [procs with_procs]. rewrite app_nth1 by exact Lp. split; assumption.
+  - apply step_RInv, H.
+Qed.
+
+Lemma l_step_PInv st op : CInv st -> PInv st -> PInv (l_step st op).
+Proof.
+  intros HC H. destruct op as [t m| |t]; cbn [l_step].
+  - destruct (Nat.ltb t (length (threads st))); exact H.
+  - exact H.
+  - apply step_PInv; auto.
+Qed.
+
+Definition Inv (st : lstate) : Prop := TInv st /\ MInv st /\ CInv st /\ RInv st /\ PInv st.
+
+Lemma l_step_Inv st op : op_ok op -> Inv st -> Inv (l_step st op).
+Proof.
+  intros OK [HT [HM [HC [HR HP]]]]. split; [|split; [|split; [|split]]].
+  - apply l_step_TInv; auto.
+  - apply l_step_MInv; auto.
+  - apply (l_step_CInv st op HT HM HC).
+  - apply l_step_RInv; auto.
+  - apply l_step_PInv; auto.
+Qed.
+
+Lemma nth_repeat {A} (x : A) n j : nth j (repeat x n) x = x.
+Proof. revert j. induction n; intros [|j]; cbn; auto. Qed.
+
+Lemma l_init_Inv n ports : Inv (l_init n ports).
+Proof.
+  split; [|split; [|split; [split|split]]].
+  - apply l_init_TInv.
+  - intros i j l m _ _ _ Hh. unfold get_thread, l_init in Hh. cbn in Hh. rewrite nth_repeat in Hh. discriminate.
+  - intros j p g _ I. unfold get_thread, l_init in I. cbn in I. rewrite nth_repeat in I. contradiction.
+  - intros g. cbn. destruct g; reflexivity.
+  - intros r p P. exfalso. destruct r; cbn in P; [tauto|discriminate].
+  - intros p. cbn. lia.
+Qed.
+
+Lemma l_run_Inv n ports ops : Forall op_ok ops -> Inv (l_run n ports ops).
+Proof.
+  unfold l_run. intros F.
+  assert (G : forall st, Inv st -> Inv (fold_left l_step ops st)).
+  { induction F as [|op ops OK F IH]; intros st H; cbn; auto. apply IH, l_step_Inv; auto. }
+  apply G, l_init_Inv.
+Qed.
+
+(* ---------- the statements ---------- *)
+Theorem run_no_deadlock n ports ops :
+  Forall op_ok ops ->
+  let st := l_run n ports ops in
+  (forall j, j < length (threads st) -> cont (get_thread st j) = []) \/
+  (exists t, t < length (threads st) /\ enabled st t = true).
+Proof. intros F. apply no_deadlock. apply (l_run_Inv n ports ops F). Qed.
+
+Theorem run_mutex n ports ops :
+  Forall op_ok ops -> MInv (l_run n ports ops).
+Proof. intros F. apply (l_run_Inv n ports ops F). Qed.
+
+Theorem run_cell_once n ports ops g :
+  Forall op_ok ops -> count_inits_cell g (log (l_run n ports ops)) <= 1.
+Proof.
+  intros F. destruct (l_run_Inv n ports ops F) as [_ [_ [[_ H2] _]]]. rewrite H2.
+  destruct (Nat.ltb _ _); [destruct (c_done _)|]; lia.
+Qed.
+
+Lemma finished_no_pending st r p :
+  (forall j, j < length (threads st) -> cont (get_thread st j) = []) -> ~ pending st r p.
+Proof. intros F [j [Lj [i [I _]]]]. rewrite (F j Lj) in I. exact I. Qed.
+
+Theorem run_no_residue n ports ops r p :
+  Forall op_ok ops ->
+  let st := l_run n ports ops in
+  (forall j, j < length (threads st) -> cont (get_thread st j) = []) ->
+  alive (get_proc st p) = false -> ~ present st r p.
+Proof.
+  intros F st Fin D P. destruct (l_run_Inv n ports ops F) as [_ [_ [_ [HR _]]]].
+  destruct (HR r p P) as [[A _]|Pe].
+  - fold st in A. congruence.
+  - eapply finished_no_pending; eauto.
+Qed.
+
+Theorem run_proc_once n ports ops p :
+  Forall op_ok ops ->
+  count_inits p (log (l_run n ports ops)) <= count_dels p (log (l_run n ports ops)) + 1.
+Proof.
+  intros F. destruct (l_run_Inv n ports ops F) as [_ [_ [_ [_ HP]]]].
+  specialize (HP p). pose proof (ind_le1 (l_run n ports ops) p). lia.
 Qed.
